@@ -81,8 +81,12 @@ func Load(o LoadOpts) (*World, error) {
 	t0 := time.Now()
 	os.Unsetenv("GOWORK")
 	env := append(os.Environ(), "GOFLAGS=-mod=mod", "GOPROXY=off", "GOSUMDB=off", "GOTOOLCHAIN=local", "GOWORK=off")
+	mode := packages.LoadSyntax
+	if os.Getenv("BANDCHECK_LOADALL") != "" || len(o.Overlay) > 0 {
+		mode = packages.LoadAllSyntax // everything type-checked from source: nothing is compiled, nothing enters the build cache
+	}
 	cfg := &packages.Config{
-		Mode:       packages.LoadSyntax,
+		Mode:       mode,
 		Dir:        o.Dir,
 		BuildFlags: []string{"-tags=verif"},
 		Tests:      false,
@@ -114,6 +118,7 @@ func Load(o LoadOpts) (*World, error) {
 		w.PkgBy[relPkg(p.PkgPath)] = p
 		w.Fset = p.Fset
 	}
+	w.recoverRenamedTypes()
 	w.LoadS = time.Since(t0).Seconds()
 	t1 := time.Now()
 	prog, spkgs := ssautil.Packages(pkgs, ssa.InstantiateGenerics)
@@ -238,6 +243,12 @@ func (w *World) recoverRenamed() {
 		funcAlias[fn] = old
 		declAlias[old] = cands[0][strings.LastIndexByte(cands[0], '.')+1:]
 		w.Funcs[old] = fn
+		delete(w.Funcs, cands[0]) // the function answers to its frozen name only (censuses walk w.Funcs by key)
+		for k := range w.Funcs {
+			if strings.HasPrefix(k, cands[0]+"$") {
+				delete(w.Funcs, k)
+			}
+		}
 		for _, a := range fn.AnonFuncs {
 			w.Funcs[FuncKey(a)] = a
 		}
@@ -262,7 +273,7 @@ func typeName(t types.Type) string {
 			t = tt.Elem()
 			continue
 		case *types.Named:
-			return tt.Obj().Name()
+			return typeObjName(tt.Obj())
 		case *types.Alias:
 			t = types.Unalias(tt)
 			continue
@@ -297,6 +308,10 @@ func ObjKey(f *types.Func) string {
 	if f.Pkg() != nil {
 		pkg = relPkg(f.Pkg().Path())
 	}
+	fname := f.Name()
+	if a, ok := methodAlias[f]; ok {
+		fname = a
+	}
 	if sig != nil && sig.Recv() != nil {
 		rt := sig.Recv().Type()
 		if n := namedOf(rt); n != nil {
@@ -304,11 +319,11 @@ func ObjKey(f *types.Func) string {
 			if n.Obj().Pkg() != nil {
 				p = relPkg(n.Obj().Pkg().Path())
 			}
-			return p + "." + n.Obj().Name() + "." + f.Name()
+			return p + "." + typeObjName(n.Obj()) + "." + fname
 		}
-		return pkg + "." + typeName(rt) + "." + f.Name()
+		return pkg + "." + typeName(rt) + "." + fname
 	}
-	return pkg + "." + f.Name()
+	return pkg + "." + fname
 }
 
 // FuncKey gives the canonical key of an SSA function; anonymous functions get "<parent>$<n>".
@@ -472,8 +487,8 @@ func (w *World) ConstAtom(pkgRel, name string) string {
 	if p == nil {
 		return "const:<unresolved " + pkgRel + "." + name + ">"
 	}
-	c, ok := p.Types.Scope().Lookup(name).(*types.Const)
-	if !ok {
+	c := lookupConst(p, name)
+	if c == nil {
 		return "const:<unresolved " + pkgRel + "." + name + ">"
 	}
 	if c.Val().Kind() == constant.String {
